@@ -449,7 +449,8 @@ def main(ctx):
     nproc = min(12, CAP)
     per = ctx.pick(25, 400)
     jobs = [{"seed": ctx.seed * 1000 + k, "count": per, "masked": k % 2 == 1, "cwd": cwd} for k in range(12)]
-    th = [lambda: model_check(ctx), lambda: run_workers("harness.drivers.c11", "work", jobs, ctx.scratch, nproc=nproc),
+    skip_model = bool(os.environ.get("VERIF_SKIP_MODEL"))          # mutant runs: the model does not depend on the code
+    th = [(lambda: None) if skip_model else (lambda: model_check(ctx)), lambda: run_workers("harness.drivers.c11", "work", jobs, ctx.scratch, nproc=nproc),
           lambda: run_workers("harness.drivers.c11", "work_replay", [{"prog": copy.deepcopy(WITNESS), "cwd": cwd}], ctx.scratch, nproc=1)]
     outs = parallel(th, max_workers=3 if CAP >= 8 else 1)
     cases = [c for r in outs[1] for c in r] + [c for r in outs[2] for c in r]
